@@ -285,6 +285,24 @@ class Features(Suite):
             res["fe"] = {k: [float(v) for v in np.atleast_1d(fe.get(k))] for k in
                          ["length", "node_count", "tip_count", "furcation_count", "path_length", "branch_length", "node_radial_distance"]}
             res["fe"]["path_length"].sort(); res["fe"]["branch_length"].sort()
+            # every named feature of the front end, in its three calling forms (name, list, dict)
+            from swcgeom.analysis import get_volume
+
+            names = ["node_branch_order", "furcation_radial_distance", "tip_radial_distance", "branch_tortuosity", "path_tortuosity"]
+            res["fe2"] = {k: sorted(float(v) for v in np.atleast_1d(fe.get(k))) for k in names} if n > 1 else {}
+            res["fe_volume"] = [float(v) for v in np.atleast_1d(fe.get("volume", accuracy=3))]      # an analytic level: deterministic
+            res["volume_direct"] = float(get_volume(t, accuracy=3))
+            if n > 1:
+                rs_ = [math.sqrt(v) for v in case["sholl_r2"]]
+                res["fe_sholl"] = [float(v) for v in fe.get("sholl", steps=rs_)]
+                lst = fe.get(["length", ("sholl", {"steps": rs_}), "tip_count"])
+                dct = fe.get({"length": {}, "sholl": {"steps": rs_}})
+                res["fe_forms"] = {"list": [[float(v) for v in np.atleast_1d(x)] for x in lst], "dict": {k: [float(v) for v in np.atleast_1d(x)] for k, x in dct.items()}}
+                sh_ = Sholl(t)
+                res["sholl_steps"] = {str(k): [int(v) for v in sh_.get(steps=k)] for k in (1, 4, 20)}
+                res["sholl_rmax"] = float(sh_.rmax)
+                res["sholl_dep"] = [[int(v) for v in sh_.get_count()], float(sh_.avg()), float(sh_.std()), int(sh_.sum())]
+                res["branch_angle"] = np.asarray(bf.get_angle()).astype(float).tolist()
             if case["population"]:
                 tmp = tempfile.mkdtemp(prefix="c10_")
                 try:
@@ -405,6 +423,53 @@ class Features(Suite):
         chk("extract-single", fe["path_length"], res["path_length"], "extract_feature path_length")
         chk("extract-single", fe["branch_length"], res["branch_length"], "extract_feature branch_length")
         chk("extract-single", fe["node_radial_distance"], res["radial"], "extract_feature node_radial_distance")
+        if res.get("fe2"):
+            chk("extract-single", res["fe2"]["branch_tortuosity"], res["branch_tortuosity"], "extract_feature branch_tortuosity")
+            chk("extract-single", res["fe2"]["path_tortuosity"], res["path_tortuosity"], "extract_feature path_tortuosity")
+            chk("extract-single", res["fe2"]["tip_radial_distance"], res["tip_radial"], "extract_feature tip_radial_distance")
+            chk("extract-single", res["fe2"]["furcation_radial_distance"], sorted(tr["radial"][i] for i in range(t["n"]) if t["pids"].count(i) >= 2),
+                "extract_feature furcation_radial_distance")
+            chk("extract-single", res["fe2"]["node_branch_order"], sorted(float(x[1]) for x in res.get("bt_order", [])), "extract_feature node_branch_order")
+        chk("extract-single", res["fe_volume"], [res["volume_direct"]], "extract_feature volume vs get_volume")
+        if "fe_sholl" in res:
+            chk("extract-single", res["fe_sholl"], [float(v) for v in res["sholl_get"]], "extract_feature sholl(steps=radii) vs Sholl.get")
+            chk("extract-forms", res["fe_forms"]["list"], [[res["length"]], [float(v) for v in res["sholl_get"]], [res["tip_count"]]], "extract_feature([...]) list form")
+            chk("extract-forms", res["fe_forms"]["dict"], {"length": [res["length"]], "sholl": [float(v) for v in res["sholl_get"]]}, "extract_feature({...}) dict form")
+            # step counts: radii s, 2s, … below the farthest node, s = rmax / (steps + 1); compared where no node sits within 1e-5 of a radius
+            P = np.array(t["xyz"], dtype=np.float64)
+            rad = np.linalg.norm(P - P[0], axis=1)
+            cnt = lambda r: sum(1 for i in range(1, t["n"]) if (rad[t["pids"][i]] <= r < rad[i]) or (rad[i] <= r < rad[t["pids"][i]]))
+            rmax = float(rad.max())
+            if not close(res["sholl_rmax"], rmax):
+                out.append(("sholl-rmax", f"Sholl.rmax {res['sholl_rmax']}, farthest node is at {rmax}"))
+            for k, got in res["sholl_steps"].items():
+                s_ = rmax / (int(k) + 1)
+                rs = list(np.arange(s_, rmax, s_))
+                if len(got) != len(rs):
+                    if abs(len(got) - len(rs)) > 1:
+                        out.append(("sholl-steps", f"Sholl.get(steps={k}) has {len(got)} radii, expected {len(rs)}"))
+                    continue
+                for g, r in zip(got, rs):
+                    lo, hi = cnt(r * (1 - 1e-5)), cnt(r * (1 + 1e-5))
+                    if lo == hi and g != lo:
+                        out.append(("sholl-steps", f"Sholl.get(steps={k}) counts {g} intersections at radius {r}, the definition gives {lo}")); break
+            dep = res["sholl_dep"]
+            d20 = res["sholl_steps"]["20"]
+            if dep[0] != d20 or not close(dep[1], float(np.mean(d20)) if d20 else dep[1]) or (d20 and dep[3] != sum(d20)):
+                out.append(("sholl-deprecated", f"get_count/avg/std/sum {dep} disagree with Sholl.get() = {d20}"))
+            # angles between branches (radians): arccos of the normalised dot product of the end-to-end vectors
+            brv = [P[b[-1]] - P[b[0]] for b in tr["branches"]]
+            A = res["branch_angle"]
+            brs_lib = sorted(tr["branches"])
+            if len(A) == len(brv):
+                # the library's branch order is its own: compare the multiset of pairwise angles
+                want = sorted(round(math.acos(max(-1.0, min(1.0, float(np.dot(u, w) / (np.linalg.norm(u) * np.linalg.norm(w) + 1e-7))))), 3)
+                              for u in brv for w in brv)
+                got = sorted(round(float(v), 3) for row in A for v in row)
+                if len(got) != len(want) or any(abs(a - b) > 2e-3 for a, b in zip(got, want)):
+                    out.append(("branch-angle", f"BranchFeatures.get_angle() {got[:6]}… differs from the pairwise angles of the branches' end-to-end vectors {want[:6]}…"))
+            else:
+                out.append(("branch-angle", f"angle matrix of size {len(A)} for {len(brv)} branches"))
         if "pop" in res:
             names, rows = res["pop"]["names"], res["pop"]["rows"]
             m = max(len(res["branch_length"]), 2)
